@@ -5,6 +5,7 @@ import (
 	"time"
 
 	"verif/sim/enga"
+	"verif/sim/engb"
 	"verif/sim/kernel"
 )
 
@@ -71,7 +72,42 @@ var props = map[string]*propInfo{
 		Oracles: []string{"C19.equals-target", "C19.atomic-unit", "C19.peers-converge", "C19.no-panic"}},
 }
 
+var compB = map[string]string{
+	"orda client (clientImpl, DatatypeManager, SyncManager, NotifyManager, datatypes)":                                   "real code",
+	"orda server: OrdaService (all RPCs), snapshot.Manager, mongodb.*, schema.*, utils.LocalLock, notification.Notifier": "real code",
+	"mongo-go-driver v1.10.1 (BSON codec, pool, monitors, wire protocol)":                                                "real code, talking over net.Pipe",
+	"MongoDB server": "stub: sim/simmongo (wire protocol OP_QUERY handshake + OP_MSG; standalone; ~15 commands; durable image; faults errBefore/errAfter/partial/drop)",
+	"gRPC":           "stub: in-process transport implementing OrdaServiceClient; deep copy by protobuf both ways; per-call context cancelled on return; loss/duplication/late delivery",
+	"MQTT broker":    "stub: per-subscriber FIFO, QoS 0",
+	"Redis / RedisLock, REST gateway, server bootstrap": "not run (local-lock path as in resources/local-config.json)",
+	"clock": "testing/synctest fake clock",
+}
+
+var assumeB = []string{
+	"the MongoDB stand-in models the documented behaviour of the commands orda issues (pinned by sim/simmongo/stub_test.go against the real driver); it is not mongod; an unmodelled command aborts the run with exit 2",
+	"one stimulus at a time followed by synctest.Wait(): the simulator decides which request is released, which pending database command is answered next (and with which fault), when a response or notification is delivered and when time advances; goroutines between two decisions run freely but only touch state ordered by those seams or by the SUT's own locks",
+	"ids come from the run's PRNG (hook H1); gRPC, MQTT and MongoDB are reached through hooks H2-H5; the process-local lock registry is cleared at a simulated restart (H10)",
+	"a clean batch is evidence over the sampled plans, not a proof",
+}
+
+const ruleB = "runs are plans generated from mix64(VERIF_SEED, property, run index): 1-5 real clients, 1-2 datatypes of mixed kinds, entry by create / subscribe / subscribe-or-create incl. late subscribers, 15-40 (quick) / 30-120 (thorough) events (local calls, transactions, Sync, simultaneous Syncs, time jumps from 1 ms to a day, plus the property's fault events), then heal + drain. A run counts as non-trivial when %s; distinct = distinct trace hash (sequence of events and of every scheduling/fault decision)."
+
 func init() {
+	for id, p := range propsB {
+		p.Engine = "B"
+		p.Components = compB
+		p.Assumptions = assumeB
+		if p.QuickS == 0 {
+			p.QuickS = 50
+		}
+		if p.ThoroughS == 0 {
+			p.ThoroughS = 900
+		}
+		if p.Level == "" {
+			p.Level = "exploration"
+		}
+		props[id] = p
+	}
 	for _, p := range props {
 		if p.Engine == "A" {
 			p.Components = compA
@@ -84,6 +120,8 @@ func regenPlan(pi *propInfo, prop, tier string, seed uint64) *kernel.Plan {
 	switch pi.Engine {
 	case "A":
 		return enga.Gen(prop, tier, seed)
+	case "B":
+		return engb.Gen(prop, tier, seed)
 	}
 	return nil
 }
@@ -92,6 +130,8 @@ func simplifications(p *kernel.Plan) []*kernel.Plan {
 	switch p.Engine {
 	case "A":
 		return enga.Simplify(p)
+	case "B":
+		return engb.Simplify(p)
 	}
 	return nil
 }
@@ -99,3 +139,28 @@ func simplifications(p *kernel.Plan) []*kernel.Plan {
 func sprintf(f string, a ...interface{}) string { return fmtSprintf(f, a...) }
 
 var fmtSprintf = fmt.Sprintf
+
+var propsB = map[string]*propInfo{
+	"C05": {Rule: sprintf(ruleB, "at least two clients pushed and at least one exchange both pushed and pulled"),
+		Oracles: []string{"C05.clients-identical", "C05.equals-log-replay", "C05.equals-server-rebuild (real snapshot.Manager.GetLatestDatatype)", "C05.remote-once-in-log-order", "C05.checkpoint-monotone", "C05.drain-terminates (<= 8 rounds)", "C06 log invariants after every event", "C05.every-call-returns", "C05.client-crash"}},
+	"C06": {Rule: sprintf(ruleB, "at least two clients pushed and at least one exchange both pushed and pulled"),
+		Oracles: []string{"C06.sseq-gapless", "C06.end-matches", "C06.every-pushed-op-once", "C06.client-order", "C06.checkpoint-sound", "C06.one-datatype-per-key"}},
+	"C07": {Level: "fault_enumeration", Rule: sprintf(ruleB, "at least one message fault fired (response dropped, request duplicated, request lost, response delivered late) and an exchange both pushed and pulled"),
+		Oracles: []string{"C07.same-as-fault-free (after heal+drain: clients identical, equal to log replay and server rebuild; every operation stored once, per-client order)", "C07.log-gapless", "C07.client-crash", "C07.every-call-returns"}},
+	"C08": {Level: "fault_enumeration", Rule: sprintf(ruleB, "at least one database fault fired (command error before/after applying, partial ordered insert, server crash before/after a command)"),
+		Oracles: []string{"C08.error-not-hang (every-call-returns)", "C08.client-crash / process-crash", "C08.acked-not-lost", "C08.log-gapless / exactly-once / recoverable", "C08.retry-converges"}},
+	"C11": {Rule: sprintf(ruleB, "at least one stored snapshot document was compared with a replay of its log prefix"),
+		Oracles: []string{"C11.snapshot-equals-prefix", "C11.userdoc-equals-prefix", "C11.version-monotone", "C11.rebuild-paths-agree (server rebuild == full replay)", "C11.snapshot-catches-up"}},
+	"C12": {Race: true, QuickS: 60, Rule: sprintf(ruleB, "at least two requests were released at the same simulated instant and their database commands interleaved"),
+		Oracles: []string{"C12.log invariants (result equals some one-at-a-time order)", "C12.every-call-returns", "C12.process-crash", "C12.no-race (race detector over the explored deterministic schedules)"}},
+	"C13": {Rule: sprintf(ruleB, "a datatype was entered by subscribe or subscribe-or-create, or an entry was refused"),
+		Oracles: []string{"C13.refused-cleanly", "C13.one-datatype-per-key", "C13.first-state", "C13.subscribed-once"}},
+	"C14": {Rule: sprintf(ruleB, "at least two clients pushed and at least one exchange both pushed and pulled (value-shape swarm)"),
+		Oracles: []string{"C14.store (operation read back from the store with the real BSON codec equals what the client sent)", "C14.peer (operation pulled by a peer equals what its issuer sent)", "C14.echo", "C14.no-panic"}},
+	"C16": {Rule: sprintf(ruleB, "at least one mutated request was sent by the rogue actor"),
+		Oracles: []string{"C16.answered", "C16.server-alive", "C16.refused-changes-nothing", "C16.client-survives"}},
+	"C17": {Rule: sprintf(ruleB, "a request crossed collections or a collection was reset"),
+		Oracles: []string{"C17.foreign-refused", "C17.same-key-independent", "C17.distinct-numbers", "C17.reset-exact"}},
+	"C18": {Rule: sprintf(ruleB, "at least one committing push was matched against the broker's publishes"),
+		Oracles: []string{"C18.one-publish-per-commit", "C18.no-publish-without-commit", "C18.realtime-converges", "C18.own-notification-ignored"}},
+}
